@@ -47,6 +47,11 @@ func checkC09(c c09Case) error {
 	if c09Cache.base != c.Base || c.Base == "" {
 		want, _, err := sepSkel(c.Base)
 		if err != nil {
+			// whether a program is accepted at all is C02's business, unless
+			// layout alone decides it
+			if _, _, verr := sepSkel(c.Variant); verr == nil {
+				return fmt.Errorf("%s: the program is rejected as it stands (%v) and accepted with the layout changed\nbase:    %q\nvariant: %q", c.What, err, c.Base, c.Variant)
+			}
 			return fmt.Errorf("harness: base program not accepted: %v\nbase: %q", err, c.Base)
 		}
 		c09Cache.base, c09Cache.want = c.Base, want
